@@ -19,12 +19,26 @@ func BuildReport(resultPtr *rego.ResultSet, validationConfig c.ValidationConfigu
 		return "", errors.New("empty result from evaluation")
 	}
 	raw := result[0]
-	m := raw.Expressions[0].Value.(types.ObjectMap)
+	if len(raw.Expressions) == 0 {
+		return "", errors.New("empty result from evaluation")
+	}
+	m, ok := raw.Expressions[0].Value.(types.ObjectMap)
+	if !ok {
+		return "", errors.New("unexpected result from evaluation: not an object")
+	}
 
-	profileName := m["profile"].(string)
-	violations := m["violation"].([]any)
-	warnings := m["warning"].([]any)
-	infos := m["info"].([]any)
+	profileName, _ := m["profile"].(string)
+	violations, _ := m["violation"].([]any)
+	warnings, _ := m["warning"].([]any)
+	infos, _ := m["info"].([]any)
+	// custom Rego (rego_extensions) can put anything into a level's result set
+	for _, level := range [][]any{violations, warnings, infos} {
+		for _, r := range level {
+			if _, isObject := r.(types.ObjectMap); !isObject {
+				return "", fmt.Errorf("unexpected result from evaluation: %v is not a validation result", r)
+			}
+		}
+	}
 	results := buildResults(violations, warnings, infos)
 	conforms := len(violations) == 0
 
